@@ -218,6 +218,9 @@ func (fr *frame) store(p pointer, v value) {
 		fr.rtPanic("invalid memory address or nil pointer dereference")
 	}
 	if p.sym != nil {
+		if _, lazy := (*cellOf(p.obj, p.path)).(*lazyArr); lazy {
+			panic(unsupported("store into a lazily defined array"))
+		}
 		p = fr.concretizePtr(p)
 	}
 	m := fr.m
@@ -251,6 +254,9 @@ func extPath(path []int, i int) []int {
 
 // loadSym reads through a pointer whose last index is symbolic.
 func (fr *frame) loadSym(p pointer) value {
+	if la, lazy := (*cellOf(p.obj, p.path)).(*lazyArr); lazy {
+		return la.get(p.sym)
+	}
 	arr := (*cellOf(p.obj, p.path)).(array)
 	// p.sym is an absolute index into arr, already bounds-checked against [lo,hi)
 	lo, hi := p.symLoHi()
@@ -353,9 +359,12 @@ func (m *Machine) callSSA(fn *ssa.Function, args []value, env []value, caller *f
 		fr.regs[info.idx[p]] = env[i]
 	}
 	fr.block = fn.Blocks[0]
+	saved := m.curFrame
+	m.curFrame = fr
 	for fr.block != nil {
 		fr.runBlocks()
 	}
+	m.curFrame = saved
 	return fr.result
 }
 
@@ -653,6 +662,13 @@ func (fr *frame) prepareCall(c *ssa.CallCommon) (value, []value) {
 	if recv.t == nil {
 		fr.rtPanic("invalid memory address or nil pointer dereference (method call on nil interface)")
 	}
+	if nf := invokeModel(recv.v, c.Method.Name()); nf != nil {
+		args := make([]value, 0, len(c.Args))
+		for _, a := range c.Args {
+			args = append(args, fr.get(a))
+		}
+		return nf, args
+	}
 	fn := fr.m.lookupMethod(recv.t, c.Method)
 	if fn == nil {
 		panic(unsupported(fmt.Sprintf("method %s not found on %s", c.Method.Name(), recv.t)))
@@ -704,6 +720,8 @@ func (m *Machine) call(fn value, args []value, caller *frame, site ssa.Instructi
 		return m.callSSA(fn.fn, args, fn.env, caller, site)
 	case *ssa.Builtin:
 		return m.callBuiltin(fn, args, caller, site)
+	case nativeFn:
+		return fn(m, caller, args)
 	case nil:
 		caller.rtPanic("call of nil function")
 	}
@@ -726,7 +744,11 @@ func (m *Machine) makeSlice(et types.Type, n, c int) slice {
 }
 
 func (s slice) arr() array {
-	return (*cellOf(s.obj, s.path)).(array)
+	a, ok := (*cellOf(s.obj, s.path)).(array)
+	if !ok {
+		panic(unsupported("element-wise access to a lazily defined array"))
+	}
+	return a
 }
 
 func (fr *frame) checkIndex(idx *Term, n int) {
@@ -779,6 +801,10 @@ func (fr *frame) indexAddr(ins *ssa.IndexAddr) value {
 		return pointer{obj: x.obj, path: x.path, sym: idx, symLo: 0, symHi: len(arr)}
 	case slice:
 		fr.checkIndex(idx, x.len)
+		if _, lazy := (*cellOf(x.obj, x.path)).(*lazyArr); lazy {
+			abs := mkBin(opAdd, idx, mkConst(64, uint64(x.off)))
+			return pointer{obj: x.obj, path: x.path, sym: abs, symLo: x.off, symHi: x.off + x.len}
+		}
 		if idx.isConst() {
 			return pointer{obj: x.obj, path: extPath(x.path, x.off+int(idx.c))}
 		}
